@@ -17,5 +17,5 @@ def run(report, tier):
                       "repeated daughters); mothers without table raise DecayNotFound",
                 bounds=f"{H.N_CHAINS} acyclic table sets over 5 particles ({H.N_CODES} table shapes each: none, empty block, 1..5 lines, repeated "
                        "daughters, depth up to 5) x every mother x all 64 stable sets over the particles involved (given as list, tuple or set)",
-                functions=FUNCS, timeout=900 if tier == "thorough" else 600, sample={"codes": [3, 4, 2, 1, 0], "stable": ["K_1(1270)+"]})
+                functions=FUNCS, timeout=3000 if tier == "thorough" else 600, sample={"codes": [3, 4, 2, 1, 0], "stable": ["K_1(1270)+"]})
     chrun.run_harness(report, h)
